@@ -192,5 +192,24 @@ func RemoveAll(repo repository.ClockedRepo) error {
 			return err
 		}
 	}
+
+	// also remove what was fetched from the remotes but doesn't exist locally (never
+	// merged, refused as invalid ...)
+	remotes, err := repo.GetRemotes()
+	if err != nil {
+		return err
+	}
+	for remote := range remotes {
+		refs, err := repo.ListRefs(fmt.Sprintf(identityRemoteRefPattern, remote))
+		if err != nil {
+			return err
+		}
+		for _, ref := range refs {
+			err = repo.RemoveRef(ref)
+			if err != nil {
+				return err
+			}
+		}
+	}
 	return nil
 }
